@@ -1,18 +1,226 @@
 """C01 — every generated library is valid, importable Python with the requested clients (DESIGN §7.1)."""
 from __future__ import annotations
-import json, os, tempfile
+import ast, json, os, tempfile
 import apigen, genrun, libhost, rpc
 from props import c11
 
 PKGS = [("acme.lib.v1", ["acme"], "lib", "v1"), ("acme.cloud.books.v1beta1", ["acme", "cloud"], "books", "v1beta1"),
-        ("zed.shop.v2", ["zed"], "shop", "v2")]
+        ("zed.shop.v2", ["zed"], "shop", "v2"),
+        # proto packages WITHOUT namespace segments (the library's top-level package is the versioned module itself), and one without a version
+        ("solo.v2", [], "solo", "v2"), ("mollusca.v1", [], "mollusca", "v1"), ("shelf.v1beta1", [], "shelf", "v1beta1"), ("solo", [], "solo", "")]
 FIELD_NAMES = ["name", "title", "count", "kind", "parent", "labels", "etag", "size", "display_name", "class", "format", "uid"]
+
+
+LIB_SKIP = ("samples/", "tests/", "docs/", "scripts/")
+
+
+def _import_nodes(tree):
+    """(import statement, hard) for every import executed when the module itself is imported (function bodies are lazy: skipped).
+    hard = reached unconditionally: not in the body of a `try` that has handlers, not under an `if`."""
+    out = []
+
+    def walk(stmts, hard):
+        for st in stmts:
+            if isinstance(st, (ast.Import, ast.ImportFrom)):
+                out.append((st, hard))
+            elif isinstance(st, (ast.FunctionDef, ast.AsyncFunctionDef)):
+                continue
+            elif isinstance(st, ast.Try):
+                walk(st.body, hard and not st.handlers)
+                for h in st.handlers:
+                    walk(h.body, False)
+                walk(st.orelse, hard and not st.handlers); walk(st.finalbody, hard)
+            elif isinstance(st, ast.If):
+                walk(st.body, False); walk(st.orelse, False)
+            elif isinstance(st, (ast.ClassDef, ast.With)):
+                walk(st.body, hard)
+            elif isinstance(st, (ast.For, ast.While)):
+                walk(st.body, False); walk(st.orelse, False)
+    walk(tree.body, True)
+    return out
+
+
+def _bound_names(tree):
+    """names a module binds at its top level (None = cannot tell: star import or module `__getattr__`)"""
+    names = set()
+
+    def tgt(t):
+        if isinstance(t, ast.Name): names.add(t.id)
+        elif isinstance(t, (ast.Tuple, ast.List)):
+            for e in t.elts: tgt(e)
+
+    def walk(stmts):
+        for st in stmts:
+            if isinstance(st, (ast.FunctionDef, ast.AsyncFunctionDef, ast.ClassDef)):
+                names.add(st.name)
+                if st.name == "__getattr__": return False
+            elif isinstance(st, ast.Assign):
+                for t in st.targets: tgt(t)
+            elif isinstance(st, (ast.AnnAssign, ast.AugAssign)):
+                tgt(st.target)
+            elif isinstance(st, (ast.Import, ast.ImportFrom)):
+                for a in st.names:
+                    if a.name == "*": return False
+                    names.add(a.asname or a.name.split(".")[0])
+            elif isinstance(st, ast.Try):
+                if any(walk(b) is False for b in [st.body, st.orelse, st.finalbody] + [h.body for h in st.handlers]): return False
+            elif isinstance(st, (ast.If, ast.For, ast.While)):
+                if walk(st.body) is False or walk(st.orelse) is False: return False
+            elif isinstance(st, ast.With):
+                if walk(st.body) is False: return False
+        return True
+    return names if walk(tree.body) is not False else None
+
+
+def static_import_oracle(ctx, res, api, spec, payload):
+    """ORACLE (independent of the model): every import statement between modules of the emitted package that is executed
+    unconditionally when its module is imported names an emitted module, and every name taken `from` it is a sub-module or is
+    bound at the top level of that module.  (What `import` would raise as ModuleNotFoundError / ImportError, exhibited with the
+    importing file and the statement; imports under try/if or inside functions are not judged.)"""
+    names = {f.name for f in res.file}
+    content = {f.name: f.content for f in res.file}
+    nsd = list(api.naming.module_namespace)
+    roots = [nsd + [api.naming.versioned_module_name], nsd + [api.naming.module_name]]
+    trees = {}
+
+    def tree_of(fn):
+        if fn not in trees:
+            trees[fn] = ast.parse(content[fn])
+        return trees[fn]
+
+    def mod_file(parts):
+        p = "/".join(parts)
+        return p + ".py" if p + ".py" in names else (p + "/__init__.py" if p + "/__init__.py" in names else None)
+
+    def intra(parts):
+        return any(parts[:len(r)] == r for r in roots)
+    seen = set()
+    for fn in sorted(names):
+        if not fn.endswith(".py") or fn.startswith(LIB_SKIP) or "/" not in fn:
+            continue
+        pkgparts = fn.split("/")[:-1]
+        if not intra(pkgparts):
+            continue
+        for node, hard in _import_nodes(tree_of(fn)):
+            if not hard:
+                continue
+            ctx.count("static_imports", "judged")
+            if isinstance(node, ast.Import):
+                for a in node.names:
+                    parts = a.name.split(".")
+                    if intra(parts) and mod_file(parts) is None:
+                        seen.add((f"unresolved-import:{os.path.basename(fn)}->{parts[-1]}", f"{fn}:{node.lineno}: import {a.name}"))
+                continue
+            if node.level:
+                if node.level - 1 > len(pkgparts):
+                    seen.add((f"unresolved-import:{os.path.basename(fn)}->beyond-top", f"{fn}:{node.lineno}")); continue
+                parts = pkgparts[:len(pkgparts) - (node.level - 1)] + (node.module.split(".") if node.module else [])
+            else:
+                parts = node.module.split(".")
+                if not intra(parts):
+                    continue
+            mf = mod_file(parts)
+            stmt = f"{fn}:{node.lineno}: from {'.' * node.level}{node.module or ''} import {', '.join(a.name for a in node.names)}"
+            if mf is None:
+                seen.add((f"unresolved-import:{os.path.basename(fn)}->{parts[-1]}", stmt)); continue
+            bound = _bound_names(tree_of(mf))
+            for a in node.names:
+                if a.name == "*" or bound is None or a.name in bound:
+                    continue
+                if mf.endswith("/__init__.py") and mod_file(parts + [a.name]) is not None:
+                    continue
+                seen.add((f"unresolved-name:{os.path.basename(fn)}->{parts[-1]}", stmt + f" ({a.name} is neither bound in {mf} nor a sub-module)"))
+    for key, what in sorted(seen):
+        if key == "unresolved-import:async_client.py->grpc_asyncio" and spec.get("rest_async") and "grpc" not in spec["transport"]:
+            key = "import-error:async-rest-without-grpc"
+        ctx.fail(key, "an import between emitted modules cannot succeed: " + what, payload)
+
+
+def service_import_graph(ctx, res, api, o, rest_async, payload):
+    """T3 for Model/Imports.lean: per service, the emitted modules of its package and the import statements between them (AST of
+    the emitted files) against `emitted` / `imports` of the model; relative imports are also resolved by the model (`resolveRel`)
+    and must land on the emitted file python's rule gives."""
+    nsd = list(api.naming.module_namespace)
+    vroot = nsd + [api.naming.versioned_module_name]
+    content = {f.name: f.content for f in res.file}
+    for s in api.services.values():
+        dparts = vroot + list(s.meta.address.subpackage) + ["services", s.module_name]
+        D = "/".join(dparts) + "/"
+        paged = any(m.paged_result_field for m in s.methods.values())
+        mo = ctx.driver.ask([{"op": "c01.imports", "transport": list(o.transport), "restAsync": bool(rest_async), "paged": bool(paged)}])[0]
+        model = {m["rel"]: m for m in mo["modules"] if m["rel"] != "gapic_version.py"}
+        got_files = sorted(n[len(D):] for n in content if n.startswith(D) and n.endswith(".py"))
+        want_files = sorted(rel for rel, m in model.items() if m["emitted"])
+        ctx.traces += 1
+        ctx.count("service_modules", f"paged={int(paged)}")
+        if got_files != want_files:
+            ctx.disagree("T3:c01.service-modules", f"{D}: emitted {sorted(set(got_files) - set(want_files))} not in the model, "
+                         f"model has {sorted(set(want_files) - set(got_files))} not emitted (paged={paged})", payload)
+        if ("pagers.py" in got_files) != bool(paged):      # oracle-side restatement of the empty-module rule for pagers.py
+            ctx.disagree("T3:c01.pagers-iff-paged", f"{D}pagers.py present={'pagers.py' in got_files}, service has a paged method={paged}", payload)
+        for rel in got_files:
+            if rel not in model:
+                continue
+            observed = set()
+            for node, hard in _import_nodes(ast.parse(content[D + rel])):
+                if not isinstance(node, ast.ImportFrom):
+                    continue
+                if node.level:
+                    if node.module:
+                        observed.add(("rel", node.level, tuple(node.module.split(".")), hard))
+                    else:
+                        observed |= {("rel", node.level, (a.name,), hard) for a in node.names}
+                else:
+                    parts = node.module.split(".")
+                    if parts == dparts:
+                        observed |= {("svc", 0, (a.name,), hard) for a in node.names}
+                    elif parts == vroot:
+                        observed |= {("root", 0, (a.name,), hard) for a in node.names}
+            want = {(i["anchor"], i["level"], tuple(i["path"]), i["hard"]) for i in model[rel]["imports"]}
+            if observed != want:
+                ctx.disagree("T3:c01.imports", f"{D}{rel}: import statements {sorted(observed - want)} not in the model; model has "
+                             f"{sorted(want - observed)} the file has not", payload)
+            for i in model[rel]["imports"]:
+                if i["anchor"] == "rel":
+                    pk = (D + rel).split("/")[:-1]
+                    py = "/".join(pk[:len(pk) - (i["level"] - 1)] + i["path"]) + ".py"
+                    if D + i["resolved"] != py or i["resolved"] != i["target"]:
+                        ctx.disagree("T3:c01.resolveRel", f"{rel}: model resolves {i} to {i['resolved']}, python to {py}", payload)
+
+
+WS_POOL = [" ", "\t", "\x0b", "\x0c", "\r", "\x1c", "\x1d", "\x1e", "\x1f", "\x85", "\xa0", "\u1680", "\u2000", "\u2003", "\u2028", "\u2029", "\u202f", "\u205f", "\u3000"]
+NOT_WS = ["\u200b", "\ufeff", "\x00", "\x08", "\u180e"]
+
+
+def t2_empty(ctx, r):
+    """`gapic.utils.empty` vs `emptyContent`, and the keep/drop test at the end of `_get_file` vs `keepFile`"""
+    from gapic import utils
+    lines_pool = ["", "# comment", "#", "x = 1", "import os", "pass", '"""doc"""', "#!shebang", "# -*- coding: utf-8 -*-", "'#'", "\\", "@", "é = 1"]
+    names = ["a/b/pagers.py", "a/__init__.py", "a/py.typed", "py.typed", "__init__.py", "a/b/x__init__.py", "a/__init__.pyi", "a/b.py.typed", "README.rst", "a/__init__.py.j2", ""]
+    cases = [("", "a.py"), ("\n", "a.py"), ("#", "a.py"), (" #\n\t\n", "a.py"), ("\r#x\rpass", "a.py"), ("#x\rpass\n", "a.py"), ("\x0cpass", "a.py"), ("\u200b", "a.py"),
+             ("# x = 1", "a.py"), (" x = 1", "a.py"), ("# a\n\n# b\n", "p/pagers.py"), ("# a\n\n# b\n", "p/__init__.py"), ("# a\n", "p/py.typed")]
+    for _ in range(ctx.n(300, 4000)):
+        ls = []
+        for _ in range(r.randint(0, 6)):
+            lead = "".join(r.pick(WS_POOL + NOT_WS[:1] if r.maybe(0.1) else WS_POOL) for _ in range(r.randint(0, 3))) if r.maybe(0.6) else ""
+            ls.append(lead + r.pick(lines_pool) + ("".join(r.pick(WS_POOL) for _ in range(r.randint(0, 2))) if r.maybe(0.3) else ""))
+        cases.append((r.pick(["\n", "\n", "\r\n", "\n\n"]).join(ls) + r.pick(["", "\n"]), r.pick(names)))
+    outs = ctx.driver.ask([{"op": "c01.empty", "content": c, "name": n} for c, n in cases])
+    for (c, n), mo in zip(cases, outs):
+        real = bool(utils.empty(c))
+        keep = not (real and not n.endswith(("py.typed", "__init__.py")))
+        ctx.traces += 1
+        ctx.count("empty", f"empty={int(real)},keep={int(keep)}")
+        if mo.get("empty") != real or mo.get("keep") != keep:
+            ctx.disagree("T2:c01.empty", f"utils.empty({c!r})={real}, kept as {n!r}={keep}; model {mo}", {"content": c, "name": n})
 
 
 def gen_spec(r: apigen.Rng):
     """an ApiSpec (plain JSON) over the shapes of C01's quantifier"""
     pkg, ns, name, ver = r.pick(PKGS)
     spec = {"pkg": pkg, "files": [], "dep_pkg": r.maybe(0.5), "sub": r.pick([None, None, "admin"]), "service_in_sub": False}
+    if not ver:
+        spec["sub"] = None      # Naming.build refuses `solo` + `solo.admin` (it cannot tell a sub-package from another API): stated as an assumption
     nfiles = r.randint(1, 3)
     msg_id = 0
     all_msgs = []
@@ -22,7 +230,7 @@ def gen_spec(r: apigen.Rng):
         if fi < nfiles - 1 and r.maybe(0.3):
             # a target file named like a module the service code imports from elsewhere (google.api_core.operation, the service's
             # own pagers module, ...): the two modules must be told apart by an alias wherever they meet
-            fname = r.pick(["operation", "pagers", "operation_async", "extended_operation", "retries", "client_options"])
+            fname = r.pick(["operation", "pagers", "operation_async", "extended_operation", "retries", "client_options", "logging"])
         f = {"name": fname, "pkg": pkg + ("." + spec["sub"] if in_sub else ""), "messages": [], "enums": [], "services": []}
         if r.maybe(0.6):
             f["enums"].append({"name": f"Color{fi}", "values": [f"COLOR{fi}_UNSPECIFIED", f"RED{fi}", f"BLUE{fi}"]})
@@ -50,12 +258,23 @@ def gen_spec(r: apigen.Rng):
                                    "kind": r.pick(["unary", "unary", "unary", "paged", "lro", "server", "client", "bidi", "void"]),
                                    "io": r.pick(all_msgs), "http": r.maybe(0.7), "sig": r.maybe(0.5)})
         spec["files"][-1]["services"].append(svc)
+    if spec["sub"] and nfiles > 1 and r.maybe(0.4):
+        # a service declared in the file of the proto SUB-package (its own services/ tree below <pkg>/<sub>/); its payloads are the
+        # messages of that file (the only ones declared before it)
+        f0 = spec["files"][0]
+        own = [(f0["pkg"], m["name"]) for m in f0["messages"]]
+        f0["services"].append({"name": "Admin", "methods": [
+            {"name": f"{r.pick(['Get', 'List', 'Run'])}Admin{k}", "kind": r.pick(["unary", "unary", "paged", "lro", "void", "server"]),
+             "io": r.pick(own), "http": r.maybe(0.7), "sig": r.maybe(0.5)} for k in range(r.randint(1, 3))]})
+        spec["service_in_sub"] = True
     if r.maybe(0.25):
         # a target file that declares ONLY the services (no message, no enum): its request messages live in the previous file
         f_last = spec["files"][-1]
         spec["files"].append({"name": "api_service", "pkg": f_last["pkg"], "messages": [], "enums": [], "services": f_last["services"], "svc_only": True})
         f_last["services"] = []
     tr = r.pick(["grpc", "rest", "grpc+rest"])
+    if tr == "grpc+rest" and r.maybe(0.15):
+        tr = "rest+grpc"          # the same set of transports, listed the other way round (gRPC is still the default)
     opts = [f"transport={tr}"]
     if r.maybe(0.3): opts.append("rest-numeric-enums")
     if r.maybe(0.3): opts.append("metadata")
@@ -68,7 +287,10 @@ def gen_spec(r: apigen.Rng):
     spec["rest_async"] = (not spec["sub"]) and r.maybe(0.2)
     if spec["rest_async"]:
         spec["service_yaml"] = True
-    spec["ads"] = r.maybe(0.12)
+    if spec["service_in_sub"] and "autogen-snippets=false" not in opts and not r.maybe(0.1):
+        # (with snippets on, a service in a sub-package stops the generator: findings/C01.json, the C14 finding of DESIGN §9-F7)
+        opts.append("autogen-snippets=false")
+    spec["ads"] = (not spec["service_in_sub"]) and r.maybe(0.12)
     if spec["ads"]:
         opts = [o for o in opts if not o.startswith("autogen")] + ["python-gapic-templates=ads-templates", "old-naming"]
     spec["opts"] = opts
@@ -109,14 +331,19 @@ def stress_specs():
     return out
 
 
+# target file names that, once a service references their messages, shadow a name the service templates bind at module level
+# (observed on the unchanged tree with transport=grpc+rest; `retries` and `logging` need the REST transport, `re` does not)
+SHADOWING_FILE_NAMES = {"re", "logging", "dataclasses", "gapic_v1", "grpc", "core_exceptions", "ga_credentials", "package_version", "std_logging", "retries"}
+
+
 def finding_specs():
-    """the two open findings of findings/C01.json, reproduced on every run"""
+    """open findings of findings/C01.json, reproduced on every run"""
     def msg(name):
         return {"name": name, "fields": [{"name": "name", "kind": "scalar", "scalar": "string", "key": "string", "target": None, "required": False},
                                          {"name": "labels", "kind": "repeated", "scalar": "string", "key": "string", "target": None, "required": False}],
                 "nested": False, "resource": False, "oneof": False}
     out = []
-    for variant in ("enum-keyword", "typing-name", "async-rest-only"):
+    for variant in ("enum-keyword", "typing-name", "async-rest-only", "file-named-retries"):
         pkg = "acme.lib.v1"
         f = {"name": "library", "pkg": pkg, "messages": [msg("Alpha")], "enums": [], "services": []}
         if variant == "enum-keyword":
@@ -124,10 +351,53 @@ def finding_specs():
         elif variant == "typing-name":
             f["messages"].append(msg("MutableSequence"))
         f["services"] = [{"name": "Library", "methods": [{"name": "GetAlpha", "kind": "unary", "io": (pkg, "Alpha"), "http": True, "sig": True}]}]
-        tr = "rest" if variant == "async-rest-only" else "grpc"
+        if variant == "file-named-retries":
+            f["name"] = "retries"
+        tr = "rest" if variant in ("async-rest-only", "file-named-retries") else "grpc"
         out.append({"pkg": pkg, "files": [f], "dep_pkg": False, "sub": None, "service_in_sub": False, "service_yaml": variant == "async-rest-only",
                     "rest_async": variant == "async-rest-only", "ads": False,
                     "opts": [f"transport={tr}", "autogen-snippets=false"], "transport": [tr]})
+    return out
+
+
+def sub_service_specs():
+    """a service declared in a proto sub-package (`acme.lib.v1.admin`), next to one in the root package: with snippets off the
+    library is complete (the sub-package view of `Model/Emit` and `Model/Imports`); with snippets on the generator stops (finding)"""
+    def msg(name):
+        return {"name": name, "fields": [{"name": "name", "kind": "scalar", "scalar": "string", "key": "string", "target": None, "required": False}],
+                "nested": False, "resource": False, "oneof": False}
+    pkg = "acme.lib.v1"
+    out = []
+    for tr, snippets in (("grpc+rest", False), ("rest", False), ("grpc", True)):
+        f0 = {"name": "admin_api", "pkg": pkg + ".admin", "messages": [msg("Beta")], "enums": [], "services": [
+            {"name": "Admin", "methods": [{"name": "GetBeta", "kind": "unary", "io": (pkg + ".admin", "Beta"), "http": True, "sig": True},
+                                          {"name": "ListBeta", "kind": "paged", "io": (pkg + ".admin", "Beta"), "http": True, "sig": False}]}]}
+        f1 = {"name": "common", "pkg": pkg, "messages": [msg("Alpha")], "enums": [], "services": [
+            {"name": "Library", "methods": [{"name": "GetAlpha", "kind": "unary", "io": (pkg, "Alpha"), "http": True, "sig": True}]}]}
+        out.append({"pkg": pkg, "files": [f0, f1], "dep_pkg": False, "sub": "admin", "service_in_sub": True, "service_yaml": False, "ads": False,
+                    "opts": [f"transport={tr}"] + ([] if snippets else ["autogen-snippets=false"]), "transport": tr.split("+")})
+    return out
+
+
+def namespaceless_specs():
+    """proto packages without namespace segments (`solo.v2`, `shelf.v1beta1`) and without a version (`solo`), with and without the
+    name / namespace overrides: the package must import its own `gapic_version` module (repaired in /repo ecc5587)"""
+    def msg(name):
+        return {"name": name, "fields": [{"name": "name", "kind": "scalar", "scalar": "string", "key": "string", "target": None, "required": False}],
+                "nested": False, "resource": False, "oneof": False}
+    out = []
+    for pkg, tr, extra, sub in (("solo.v2", "grpc+rest", ["autogen-snippets=false"], None), ("solo", "rest", ["autogen-snippets=false"], None),
+                                ("shelf.v1beta1", "grpc", ["autogen-snippets=false", "python-gapic-name=my_shelf"], "admin"),
+                                ("mollusca.v1", "grpc+rest", ["python-gapic-namespace=foo.bar", "metadata"], None),      # snippets on: fine with a namespace
+                                ("solo.v2", "grpc", [], None)):                                                           # snippets on, no namespace: finding
+        files = []
+        if sub:
+            files.append({"name": "admin_types", "pkg": pkg + "." + sub, "messages": [msg("Beta")], "enums": [], "services": []})
+        files.append({"name": "library", "pkg": pkg, "messages": [msg("Alpha")], "enums": [{"name": "Color0", "values": ["COLOR0_UNSPECIFIED", "RED0"]}], "services": [
+            {"name": "Library", "methods": [{"name": "GetAlpha", "kind": "unary", "io": (pkg, "Alpha"), "http": True, "sig": True},
+                                            {"name": "ListAlpha", "kind": "paged", "io": (pkg, "Alpha"), "http": True, "sig": False}]}]})
+        out.append({"pkg": pkg, "files": files, "dep_pkg": False, "sub": sub, "service_in_sub": False, "service_yaml": False, "ads": False,
+                    "opts": [f"transport={tr}"] + extra, "transport": tr.split("+")})
     return out
 
 
@@ -253,7 +523,11 @@ def run_case(ctx, spec, label):
     try:
         res, err = genrun.try_generate(req)
         if err:
-            ctx.fail("generation:" + err[0], f"generator raised {err[0]}: {err[1]}", payload)
+            key = "generation:" + err[0]
+            if (spec.get("service_in_sub") and "autogen-snippets=false" not in spec["opts"] and err[0].startswith("KeyError@samplegen/samplegen.py:generate_sample_specs")
+                    and any(("." + sv["name"]) in err[1] for f in spec["files"] if f["pkg"] != spec["pkg"] for sv in f["services"])):
+                key = "generation:KeyError:service-in-subpackage-with-snippets"
+            ctx.fail(key, f"generator raised {err[0]}: {err[1]}", payload)
             return
         bad = []
         for f in res.file:
@@ -268,21 +542,39 @@ def run_case(ctx, spec, label):
                 except ValueError as e:
                     ctx.fail("json-invalid", f"{f.name}: {e}", payload)
         if bad:
-            where = "samples" if all(b[0].startswith("samples/") for b in bad) else ("tests" if all(b[0].startswith("tests/") for b in bad) else "library")
-            key = f"syntax-error:{where}"
-            if where == "library":
-                import keyword as _kw, re as _re
-                texts = {b[0]: next(f.content for f in res.file if f.name == b[0]).splitlines()[(b[1] or 1) - 1].strip() for b in bad}
-                kws = {v for f in spec["files"] for e in f["enums"] for v in e["values"] if _kw.iskeyword(v)}
-                def about_kw_value(name, line):      # the declaration `None = 1` in a types module, or a use `<Enum>.None` elsewhere
-                    m = _re.fullmatch(r"(\w+) = -?\d+", line)
-                    return bool(m and m.group(1) in kws and "/types/" in name) or any(_re.search(r"\.%s\b" % k, line) for k in kws)
-                if kws and all(about_kw_value(b[0], texts[b[0]]) for b in bad):
-                    key = "syntax-error:enum-value-is-python-keyword"
-            ctx.fail(key, f"{len(bad)} emitted file(s) do not parse, e.g. {bad[0]}", payload)
-            if where == "library":
+            import keyword as _kw, re as _re
+            line_of = {b[0]: next(f.content for f in res.file if f.name == b[0]).splitlines()[(b[1] or 1) - 1].strip() for b in bad}
+            no_ns = len(spec["pkg"].split(".")) <= 2 and not any(o.startswith("python-gapic-namespace=") for o in spec["opts"])
+            groups = {"noxfile": [b for b in bad if b[0] == "noxfile.py"], "samples": [b for b in bad if b[0].startswith("samples/")],
+                      "tests": [b for b in bad if b[0].startswith("tests/")]}
+            groups["library"] = [b for b in bad if not any(b in g for g in groups.values())]
+            for where, grp in groups.items():
+                if not grp:
+                    continue
+                key = "syntax-error:" + ("library" if where == "noxfile" else where)
+                if where == "noxfile" and no_ns and _re.fullmatch(r'session\.run\("flake8", "\w+, "tests"\)', line_of["noxfile.py"]):
+                    key = "syntax-error:noxfile:package-without-namespace"
+                if where == "samples" and no_ns and all(_re.fullmatch(r"from  import \w+", line_of[b[0]]) for b in grp):
+                    key = "syntax-error:samples:package-without-namespace"
+                if where in ("library", "tests", "samples") and not key.endswith("package-without-namespace"):
+                    kws = {v for f in spec["files"] for e in f["enums"] for v in e["values"] if _kw.iskeyword(v)}
+                    def about_kw_value(name, line):      # the declaration `None = 1` in a types module, or a use `<Enum>.None` elsewhere
+                        m = _re.fullmatch(r"(\w+) = -?\d+", line)
+                        return bool(m and m.group(1) in kws and "/types/" in name) or any(_re.search(r"\.%s\b" % k, line) for k in kws)
+                    if kws and all(about_kw_value(b[0], line_of[b[0]]) for b in grp):
+                        key = "syntax-error:enum-value-is-python-keyword"
+                ctx.fail(key, f"{len(grp)} emitted file(s) do not parse, e.g. {grp[0]}", payload)
+            if groups["library"]:      # (noxfile.py, samples and tests are not modules of the package: the import clauses are still judged)
                 return
         api, o = genrun.build_api(req)
+        ex0 = api.all_library_settings[api.naming.proto_package].python_settings.experimental_features
+        static_import_oracle(ctx, res, api, spec, payload)
+        if not spec["ads"]:
+            service_import_graph(ctx, res, api, o, ex0.rest_async_io_enabled, payload)
+        small = [f for f in res.file if len(f.content) < 3000 and not f.name.startswith("samples/")]
+        for f, mo in zip(small, ctx.driver.ask([{"op": "c01.empty", "content": f.content, "name": f.name} for f in small])):
+            if mo.get("keep") is not True:      # an emitted file is one `_get_file` kept
+                ctx.disagree("T3:c01.keep", f"{f.name} was emitted but the model of the empty-module rule drops it: {mo}", payload)
         root = genrun.materialise(res)
         try:
             if spec["dep_pkg"]:
@@ -306,9 +598,16 @@ def run_case(ctx, spec, label):
             etxt = str(imp.get("errors") or imp)
             if spec.get("rest_async") and "grpc" not in spec["transport"] and "transports.grpc_asyncio" in etxt and "ModuleNotFoundError" in etxt:
                 key = "import-error:async-rest-without-grpc"
-            # (two symptoms of the one cause: the descriptor file is built before the class exists — built twice, or built without it)
-            if mnames & {"MutableSequence", "MutableMapping"} and ("duplicate file name" in etxt or ("AttributeError" in etxt and ".types." in etxt and "has no attribute" in etxt)):
+            # (three symptoms of the one cause: the descriptor file is built before the class exists — built twice, built without it, or a field refers to it)
+            import re as _re4
+            if mnames & {"MutableSequence", "MutableMapping"} and ("duplicate file name" in etxt or ("AttributeError" in etxt and ".types." in etxt and "has no attribute" in etxt)
+                                                                    or _re4.search(r"couldn't resolve name '[\w.]+\.(MutableSequence|MutableMapping)'", etxt)):
                 key = "import-error:message-named-like-typing-import"
+            # a types module named like a module (or import alias) the service templates bind at module level shadows it (findings/C01.json)
+            import re as _re2
+            msh = _re2.search(r"module '[\w.]+\.types\.(\w+)' has no attribute", etxt)
+            if "AttributeError" in etxt and msh and msh.group(1) in SHADOWING_FILE_NAMES and msh.group(1) in {f["name"] for f in spec["files"]}:
+                key = "import-error:types-module-shadows-template-import"
             ctx.fail(key, f"package {pkg} does not import: {str(imp.get('errors') or imp)[:400]}", payload)
             return
         ex = api.all_library_settings[api.naming.proto_package].python_settings.experimental_features
@@ -357,19 +656,27 @@ def run_case(ctx, spec, label):
 
 
 def run(ctx):
-    ctx.rule = ("general profile: 1..3 files (optionally one in a proto sub-package, optionally a dependency package), messages with scalar/"
+    ctx.rule = ("general profile: proto package with or without namespace segments / version, 1..3 files (optionally one in a proto sub-package, optionally a dependency package), messages with scalar/"
                 "enum/message/map/repeated/optional/self-recursive/well-known/cross-package fields, nested types, oneofs, resources, 1..2 "
-                "services with unary/void/paged/LRO/streaming methods, HTTP rules and signatures x options (transport, numeric enums, metadata, "
+                "services (optionally one more in the sub-package) with unary/void/paged/LRO/streaming methods, HTTP rules and signatures x options (transport incl. rest+grpc, numeric enums, metadata, "
                 "snippets, name/namespace/warehouse overrides, service-yaml, ads templates + old-naming); distinct by spec")
     ctx.assume("the alternative (ads) template set offers no asyncio client or transport: for it only the synchronous surface is checked")
+    ctx.assume("a proto package without a version segment has no proto sub-packages (Naming.build rejects `solo` + `solo.admin`)")
     ctx.assume("Python's parser and importer are not modelled: `parses and imports` is decided by execution on every case")
     r = ctx.rng("general")
+    t2_empty(ctx, ctx.rng("empty"))
     for k, spec in enumerate(finding_specs()):
         run_case(ctx, spec, f"finding{k}")
         ctx.case({"finding": k}, distinct_key=["finding", k])
     for k, spec in enumerate(stress_specs()):
         run_case(ctx, spec, f"stress{k}")
         ctx.case({"stress": k, "opts": spec["opts"]}, distinct_key=["stress", k])
+    for k, spec in enumerate(sub_service_specs()):
+        run_case(ctx, spec, f"subsvc{k}")
+        ctx.case({"subsvc": k, "opts": spec["opts"]}, distinct_key=["subsvc", k])
+    for k, spec in enumerate(namespaceless_specs()):
+        run_case(ctx, spec, f"nons{k}")
+        ctx.case({"nons": k, "pkg": spec["pkg"], "opts": spec["opts"]}, distinct_key=["nons", k])
     for i in range(ctx.n(20, 500)):
         spec = gen_spec(r)
         run_case(ctx, spec, f"case{i}")
@@ -395,11 +702,18 @@ def replay(ctx, payload):
 CLAIM = dict(
     text="Lean 4 proofs of the transport/client gating: the transport registry holds exactly the requested transports, gRPC is the default "
          "when requested and REST otherwise, transport modules are emitted exactly for the requested transports, one sync client module per "
-         "service and an asyncio client module iff gRPC (all option lists over {grpc, rest}). Tie: T1 bridge of the template lists; T3 the "
-         "imported clients' registry/default/async presence and the emitted file-name set vs the model. The clause `every .py parses, the "
+         "service and an asyncio client module iff gRPC (all option lists over {grpc, rest}); the import statements BETWEEN the modules of a "
+         "service package (client, async client, pagers, transports) name emitted modules only and, read by Python's rule for relative imports, "
+         "the files the generator renders — every API shape, every view incl. sub-packages, every service — unless the async-REST experiment "
+         "is on without gRPC (hypothesis proved necessary; open finding); the registry's classes are the ones client.py imports; the client "
+         "names the package __init__ asks for are bound by the service package; utils.empty characterised line by line. Tie: T1 bridge of the "
+         "template lists; T2 utils.empty / the keep-or-drop test; T3 the imported clients' registry/default/async presence, the emitted file-name "
+         "set, and per service the emitted modules and the import statements of each (AST) vs the model. Oracle also names every unconditional "
+         "import between emitted modules that cannot succeed (module not emitted / name not bound). The clause `every .py parses, the "
          "package and all sub-modules import, JSON artefacts parse` is decided by EXECUTION on every generated case (compile(), fresh-"
          "interpreter import with pkgutil.walk_packages, json.loads), not proved.",
     technique="Lean 4 theorems about the gating model (decide over template names) + generate-and-import exploration with differential T3",
     design="7.1",
-    note="Importability itself is outside any model here (CPython, jinja2 and the ~100 templates are the runtime shell): explored, not proved.",
+    note="Importability itself is outside any model here (CPython, jinja2 and the ~100 templates are the runtime shell): explored, not proved. "
+         "Not modelled: imports of types modules (address-computed; C02/C03/C08 model Address), names bound vs used inside a module, the ads set.",
 )
